@@ -38,6 +38,10 @@ type c16UpdCase struct {
 	HoldS     int      `json:"hold_s,omitempty"`
 	RouterID  []byte   `json:"router_id,omitempty"`
 	Prior     string   `json:"prior,omitempty"` // a failing call made before this one (scratch state must not leak)
+	// withdraw-many: Many prefixes 10.x.y.0/ManyLen (every third one a /32 host route when ManyMixed) withdrawn in one call
+	Many      int  `json:"many,omitempty"`
+	ManyLen   int  `json:"many_len,omitempty"`
+	ManyMixed bool `json:"many_mixed,omitempty"`
 }
 
 type c16OpenCase struct {
@@ -228,6 +232,59 @@ func c16RunUpdate(res *verifrt.Result, c c16UpdCase) {
 			res.Violate("withdraw-content-differs", fmt.Sprintf("got withdrawn=%v nlri=%v attrs=%v want %v", u.Withdrawn, u.NLRI, u.HasAttrs, want), c)
 		}
 		res.Outcome(fmt.Sprintf("withdraw:ok n=%d", len(want)))
+	case "withdraw-many":
+		// a long list of withdrawals in one call: however it is split, every message is a well-formed one of at most 4096
+		// bytes (RFC 4271 section 4) and together they withdraw exactly the list
+		var pfxs []*net.IPNet
+		want := map[wirePrefix]int{}
+		for i := 0; i < c.Many; i++ {
+			l := c.ManyLen
+			if c.ManyMixed && i%3 == 2 {
+				l = 32
+			}
+			ip := net.IPv4(10, byte(i>>8), byte(i), 0).To4()
+			n := &net.IPNet{IP: ip.Mask(net.CIDRMask(l, 32)), Mask: net.CIDRMask(l, 32)}
+			pfxs = append(pfxs, n)
+			var wp wirePrefix
+			wp.Len = l
+			copy(wp.Addr[:], n.IP)
+			want[wp]++
+		}
+		if err := sendWithdraw(&w, pfxs); err != nil {
+			res.Violate("encoder-fails-on-valid-input kind=withdraw-many", err.Error(), c)
+			return
+		}
+		raw := w.Bytes()
+		for off := 0; off+19 <= len(raw); {
+			l := int(raw[off+16])<<8 | int(raw[off+17])
+			if l > 4096 {
+				res.Violate("withdraw-message-longer-than-4096-bytes", fmt.Sprintf("%d prefixes of length /%d (mixed=%v) withdrawn in one call: message of %d bytes", c.Many, c.ManyLen, c.ManyMixed, l), c)
+				return
+			}
+			if l < 19 {
+				break
+			}
+			off += l
+		}
+		msgs, derr := wireDecodeAll(raw, true)
+		if derr != nil {
+			res.Violate("malformed-withdraw many", fmt.Sprintf("decode error: %v; %d bytes in %d messages", derr, len(raw), len(msgs)), c)
+			return
+		}
+		got := map[wirePrefix]int{}
+		for _, m := range msgs {
+			if m.Update == nil || len(m.Update.NLRI) != 0 || m.Update.HasAttrs {
+				res.Violate("withdraw-content-differs many", "a message of the withdrawal is not a pure withdrawal", c)
+				return
+			}
+			for _, wp := range m.Update.Withdrawn {
+				got[wp]++
+			}
+		}
+		if !reflect.DeepEqual(got, want) {
+			res.Violate("withdraw-content-differs many", fmt.Sprintf("%d distinct prefixes withdrawn, %d wanted", len(got), len(want)), c)
+		}
+		res.Outcome(fmt.Sprintf("withdraw-many:ok msgs=%d", len(msgs)))
 	case "open":
 		err := sendOpen(&w, c.ASN, net.IP(c.RouterID), time.Duration(c.HoldS)*time.Second)
 		if err != nil {
@@ -551,6 +608,15 @@ func TestVerif_C16(t *testing.T) {
 			}
 		}
 		c16RunUpdate(res, c16UpdCase{Kind: "keepalive"})
+		// long withdrawals around the sizes at which one message no longer suffices (814 host routes, 1018 /24s)
+		for _, n := range []int{700, 814, 815, 816, 1017, 1018, 1019, 1100, 2500} {
+			for _, l := range []int{32, 24, 16} {
+				for _, mixed := range []bool{false, true} {
+					c16RunUpdate(res, c16UpdCase{Kind: "withdraw-many", Many: n, ManyLen: l, ManyMixed: mixed})
+					distinct++
+				}
+			}
+		}
 	}
 
 	// ---- readOpen over the grammar ----
